@@ -9,7 +9,8 @@ writes is the *reference* for that (program, options) pair.  Every other observa
 SAME files with the SAME options must produce the same file names with the same sha256:
 
  (1) fresh processes: PYTHONHASHSEED in {0,1,2,3,random,...}, cwd in {source dir, a sub directory,
-     the scratch root, an unrelated directory}, input path absolute / relative / "./x" /
+     the scratch root, an unrelated directory, the directory of a twin program that contains files
+     of the same names}, input path absolute / relative / "./x" /
      non-normalised, output directory absolute / relative / trailing slash / non-normalised /
      omitted (default = next to the source file), `-q` on/off, plain repetition;
  (2) ONE process (a small driver script run as a subprocess which imports bitproto from the
@@ -25,12 +26,19 @@ Nothing about the content of the generated code is asserted - only equality of b
 in the directory the documentation promises), so files written to a wrong place count as missing.
 
 Programs: tools.gen.ProgramGen programs (0-4 imports, main forced to >= 3 imports for a part),
-hand-structured randomised workspaces (diamond imports, `import as`, the same definition names in
+hand-structured randomised workspaces (5 imports in one file, diamond imports, imports from and
+into a sub directory, `import as` (the twin spells the aliases the other way), the same definition names in
 several files and in nested scopes, enums declared in non-ascending value order, constants
 computed from imported constants, name prefix / package / module options), text twins, all
 decorated with comments (also in front of `import` / `proto`, where parent and child parsers
 share the comment stack), trailing comments, names that convert differently per language
 (snake_case / camelCase / digits / keyword `type`) and lint-violating names and indentation.
+
+A (program, options) pair whose reference compile fails is outside the precondition (skipped and
+counted) unless it compiles under `-q` / another hash seed - that is reported.  The compiler
+sources are fingerprinted at the start; if they change on disk while the check runs (a patch
+applied or reverted concurrently) the run aborts with an error instead of reporting a deviation.
+Replays: `python -m tools.props_c18 replays/C18-<seed>-<n>.json` re-runs a replay file.
 """
 from __future__ import annotations
 
@@ -495,7 +503,7 @@ def units_for(ws: WS, fn: str, rng: random.Random, nopt: int) -> List[Unit]:
         msgs = re.findall(r"^message (\w+)", ws.files[fn], re.M)
         more: List[Tuple[str, Tuple[str, ...]]] = [("go", ("-O",)), ("c", ("-O", "--endian", "little")), ("c", ("-O", "--endian", "big"))]
         if msgs:
-            pick = rng.sample(msgs, rng.randint(1, min(2, len(msgs))))
+            pick = rng.sample(msgs, min(len(msgs), rng.choice([1, 2, 2, 3])))
             more.append(("c", ("-O", "-F", ",".join(pick))))
             more.append(("go", ("-O", "-F", ",".join(pick))))
         rng.shuffle(more)
@@ -737,7 +745,7 @@ class SchedBuilder:
         src = os.path.join(u.ws.dir, u.fn)
         out_abs = _fresh(self.root, "io", u.ws.name)
         st["outdir_abs"] = out_abs
-        style = r.choice(["abs", "abs", "rel-ws", "rel-root"])
+        style = r.choice(["abs", "abs", "rel-ws", "rel-ws", "rel-root"])
         if style == "abs":
             st["file"] = src
             st["outdir"] = out_abs
@@ -883,7 +891,7 @@ def _ws_files(wss: List[WS]) -> Dict[str, str]:
 
 SIZES = {
     # random ws, special ws (each gets a twin), random twins, optional -O configs per target, variants per unit, schedules, schedule length
-    "quick": dict(n_random=8, n_special=2, n_rtwin=3, nopt=1, nvar=2, n_sched=36, sched_len=20),
+    "quick": dict(n_random=8, n_special=2, n_rtwin=3, nopt=2, nvar=2, n_sched=36, sched_len=20),
     "thorough": dict(n_random=44, n_special=14, n_rtwin=12, nopt=2, nvar=3, n_sched=400, sched_len=30),
 }
 
